@@ -281,9 +281,9 @@ instance : FromJson WorldP where
 def engineC02 : Engine :=
   mkEngine (I := WorldP) (O := C02Obs) (fun i => c02Model i.w i.probes) (fun i => validB i.w) (fun i o => judgeC02 i.w i.probes o)
 def engineC03 : Engine :=
-  mkEngine (I := World) (O := C03Obs) c03Model (fun _ => true) judgeC03
+  mkEngine (I := World) (O := C03Obs) c03Model validB judgeC03
 def engineC04 : Engine :=
-  mkEngine (I := World) (O := C04Obs) c04Model (fun _ => true) judgeC04
+  mkEngine (I := World) (O := C04Obs) c04Model validB judgeC04
 def engineC08 : Engine :=
   mkEngine (I := World) (O := C08Obs) c08Model domC08 judgeC08
 def engineC09 : Engine :=
@@ -297,7 +297,7 @@ instance : FromJson WorldQ where
     let qs : List (Ref × Nat) ← j.getObjValAs? (List (Ref × Nat)) "queries"
     pure ⟨w, qs.map fun (r, k) => (r, match k with | 0 => QKind.dependencies | 1 => .dependents | _ => .enumDependents)⟩
 def engineC05 : Engine :=
-  mkEngine (I := WorldQ) (O := C05Obs) (fun i => c05Model i.w i.qs) (fun i => i.w.bidi) (fun i o => judgeC05 i.w i.qs o)
+  mkEngine (I := WorldQ) (O := C05Obs) (fun i => c05Model i.w i.qs) (fun i => i.w.bidi && validB i.w) (fun i o => judgeC05 i.w i.qs o)
 structure WorldO where
   w : World
   ops : List (Ref × String)
